@@ -36,7 +36,7 @@ ENTRY = "C06Entry"
 
 SIG = {"perm": "datalist-unsorted-entries", "headers": "header-record-on-empty-row"}
 SINGLE_KINDS = ["perm", "rechunk", "order", "method", "form", "offsets", "headers"]
-CORE_FIXTURES = ["issue-66-collab", "test-1", "test-empty-rows", "issue-14", "test-3", "test-6", "issue-80"]
+CORE_FIXTURES = ["issue-66-collab", "test-1", "test-empty-rows", "issue-14", "test-3", "test-6", "issue-80", "custom-formats1", "issue-32"]
 SLOW_FIXTURES = {"duration_112", "custom-format-stress", "test-all-formulas", "test-all-formulas-13.1", "date_formats", "issue-67"}
 
 
@@ -667,7 +667,17 @@ def plan(ctx: Ctx):
     core = [f for f in CORE_FIXTURES if f in fixtures]
     rest = [f for f in fixtures if f not in core and (not ctx.quick or f not in SLOW_FIXTURES)]
     if ctx.quick:
-        picked = core + rng.sample(rest, min(7, len(rest)))
+        from numbers_parser import Document
+        rng.shuffle(rest)
+        picked = list(core)
+        for f in rest:
+            if len(picked) >= len(core) + 7:
+                break
+            try:      # deliberately damaged fixtures are outside the property
+                Document(common.REPO / "tests" / "data" / (f + ".numbers"))
+            except Exception:  # noqa: BLE001
+                continue
+            picked.append(f)
     else:
         picked = core + rest
     srcs = picked + ["api:" + n for n in API_DOCS]
@@ -842,6 +852,10 @@ def replay(path: str) -> int:
                 orig, new, pack, msg, dst = run_case(tmp, case["src"], case["kinds"], case["seed"])
                 if msg is None and new is not None and "key" in case:
                     msg = _miss_msg(new, case)
+                if msg is None and new is not None:
+                    m = new.doc._model
+                    for (sn, tn, t) in new.tables:
+                        msg = msg or declared_rows_oracle(m, t._table_id, table_layout(m, t._table_id))
             else:
                 rd = Reading(source_path(tmp, case["src"]))
                 msg = _miss_msg(rd, case) if "key" in case else None
